@@ -284,6 +284,18 @@ impl<T: Bridge> Bridge for RcSlice<T> {
     }
 }
 
+impl<T: 'static> Bridge for std::marker::PhantomData<T> {
+    fn ty() -> Ty {
+        Ty::Unit
+    }
+    fn to_val(&self) -> Val {
+        Val::Unit
+    }
+    fn from_val(_: &Val) -> Self {
+        std::marker::PhantomData
+    }
+}
+
 impl Bridge for Duration {
     fn ty() -> Ty {
         Ty::Duration
